@@ -3,7 +3,12 @@ package props
 import (
 	"fmt"
 	"os"
+	"sync"
+	"sync/atomic"
 	"testing"
+	"time"
+
+	"pgregory.net/rapid"
 
 	"github.com/aukilabs/hagall/models"
 )
@@ -87,4 +92,106 @@ func TestC10IDsExhaustive(t *testing.T) {
 		col.Violations++
 		t.Fatalf("C10 violated: %s", fail)
 	}
+}
+
+// C10 (b): the id sources under real concurrency ("when ids are requested
+// concurrently from any number of connections"). 2-16 goroutines hammer one
+// SequentialIDGenerator with generated mixes of New and release-of-a-held-id,
+// and one Session with NewParticipantID / NewEntityID (never released). An
+// ownership table of atomics is the oracle: an id handed out while somebody
+// still holds it is a collision. The table entry is cleared BEFORE the id is
+// given back, so the oracle cannot fail on a correct generator.
+type idRaceCase struct {
+	Workers int   `json:"workers"`
+	Ops     int   `json:"ops_per_worker"`
+	Release []int `json:"release_every"` // per worker: release a held id every k-th step (0 = never)
+}
+
+func runIDRace(c idRaceCase) (viol string, collisions int) {
+	var g models.SequentialIDGenerator
+	sess := models.NewSession(1, time.Hour)
+	const N = 1 << 21
+	owners := make([]atomic.Int32, N)
+	pidSeen := make([]atomic.Int32, N)
+	eidSeen := make([]atomic.Int32, N)
+	var vmu sync.Mutex
+	note := func(s string) {
+		vmu.Lock()
+		if viol == "" {
+			viol = s
+		}
+		collisions++
+		vmu.Unlock()
+	}
+	var wg sync.WaitGroup
+	start := make(chan struct{})
+	for wk := 0; wk < c.Workers; wk++ {
+		wg.Add(1)
+		go func(wk int) {
+			defer wg.Done()
+			<-start
+			var held []uint32
+			rel := c.Release[wk%len(c.Release)]
+			for i := 0; i < c.Ops; i++ {
+				if rel > 0 && i%rel == rel-1 && len(held) > 0 {
+					id := held[len(held)-1]
+					held = held[:len(held)-1]
+					owners[id].Store(0)
+					g.Reuse(id)
+					continue
+				}
+				id := g.New()
+				if id == 0 || int(id) >= N {
+					note(fmt.Sprintf("generator returned id %d", id))
+					return
+				}
+				if !owners[id].CompareAndSwap(0, int32(wk+1)) {
+					note(fmt.Sprintf("id %d was handed to worker %d while worker %d still holds it", id, wk+1, owners[id].Load()))
+				}
+				held = append(held, id)
+				if p := sess.NewParticipantID(); int(p) < N && !pidSeen[p].CompareAndSwap(0, 1) {
+					note(fmt.Sprintf("participant id %d was issued twice in one session", p))
+				}
+				if e := sess.NewEntityID(); int(e) < N && !eidSeen[e].CompareAndSwap(0, 1) {
+					note(fmt.Sprintf("entity id %d was issued twice in one session", e))
+				}
+			}
+		}(wk)
+	}
+	close(start)
+	wg.Wait()
+	return
+}
+
+func TestC10IDsConcurrent(t *testing.T) {
+	col := NewCollector("C10", "idsR", "real threads: 2-16 goroutines, each 2000-20000 steps on one shared models.SequentialIDGenerator (New, or release of an id the goroutine holds, every k-th step with k generated per goroutine) and on one models.Session (NewParticipantID, NewEntityID); oracle: an atomic ownership table - no id is handed out while another goroutine holds it, no participant or entity id is issued twice; non-trivial = distinct case with >= 4 goroutines of which at least one releases ids")
+	t.Cleanup(col.Write)
+	if rp := os.Getenv("VERIF_REPLAY"); rp != "" {
+		var c idRaceCase
+		if err := readJSON(rp, &c); err != nil || c.Workers == 0 || len(c.Release) == 0 {
+			t.Skipf("replay file not usable: %v", err)
+		}
+		for i := 0; i < 20; i++ {
+			if v, _ := runIDRace(c); v != "" {
+				t.Fatalf("replay violates C10: %s", v)
+			}
+		}
+		return
+	}
+	rapid.Check(t, func(rt *rapid.T) {
+		c := idRaceCase{Workers: 2 + uni(rt, "workers", 15), Ops: pick(rt, "ops", []int{2000, 5000, 20000})}
+		releasing := false
+		for i := 0; i < c.Workers; i++ {
+			r := pick(rt, "release_every", []int{0, 0, 2, 3, 5, 17})
+			releasing = releasing || r > 0
+			c.Release = append(c.Release, r)
+		}
+		v, n := runIDRace(c)
+		col.Case(fmt.Sprintf("%+v", c), v == "" && c.Workers >= 4 && releasing, map[string]int{"workers_ge_8": b2i(c.Workers >= 8), "with_releases": b2i(releasing)}, func() any { return c })
+		if v != "" {
+			col.Violations++
+			saveCase("C10", c)
+			rt.Fatalf("C10 violated: %s (%d collisions in this case; case %+v)", v, n, c)
+		}
+	})
 }
